@@ -67,3 +67,11 @@ claim("C19",
       "The builder's numeric conversion kernels (setIntFrom*/setUintFrom*/setFloatFrom*/setBigIntFromUint/setPBigIntFromUint, conversions.UintToBigInt, BuilderEventReceiver.OnNegativeInt) run on fully symbolic 64-bit integers, float bit patterns and 2-word big.Ints against every integer/float destination width; z3 shows that whenever no error is raised the stored value equals the source's mathematical value (bit-level oracle).",
       "Destinations are written through an emulated reflect.Value (SetInt/SetUint/SetFloat truncate/round like package reflect; validated by native replay). big.Float, DFloat and apd.Decimal sources go through decimal text and are outside reach.",
       "DESIGN.md §5 C19")
+claim("C07",
+      "Documents of 0..4 fully symbolic bytes (5 thorough) and structured documents reaching each of the 27 length-carrying CBE headers with symbolic length fields run through cbe.Decoder.DecodeDocument/Decode and the universal decoder, rules on and off; every path must return: an escaping panic, an oversized allocation request (> 64 MiB) or an exhausted step budget is reported as a violation with a model.",
+      "Outside: template types / unsupported kinds (reflection), the CTE parser proper, goroutine blocking. 'Never blocks' = per-path step budget of 5M interpreted instructions.",
+      "DESIGN.md §5 C07")
+claim("C08",
+      "Ghost allocation counter over make/append in the real CBE decoder: for every length-carrying header with symbolic length fields and a symbolic MaxArraySizeBytes in [1,4096], z3 shows no single request and no path total exceeds 64*len(document) + 2*MaxArraySizeBytes + 1 MiB, rules on and off.",
+      "Bound constants chosen generously (DESIGN.md §5 C08). Decoding time and the CTE decoder are outside reach. Memory = bytes requested through make/append (engine ghost state).",
+      "DESIGN.md §5 C08")
